@@ -377,6 +377,9 @@ func checkOptimize(c *Ctx, opt *ssa.Function) {
 					voc["containers-opaque"] = true // a chooser map assembled in place (inlined helper): what it holds is not in the term
 					st = stateOf(false, voc, lk.Args[0])
 					why = "the chooser map is " + short(lk.Args[0].String()) + "; want the one built from the table argument"
+				case "conv[string]("+lk.Args[1].String()+")" == residue:
+					// a chooser map keyed by the residue rune itself instead of its one-letter string: same key
+					st = holds
 				case lk.Args[1].String() != residue:
 					st = stateOf(false, vocabOf(residue), lk.Args[1])
 					if st == broken && !localDiff(lk.Args[1], residue) {
